@@ -206,7 +206,9 @@ def run(ctx):
             r5.violation(key, "open() is not tied to the StoreObject answer of the builder", s.loc)
         stores = [a for a in field_accesses(prog, OR, "object_writer", funcs=[f]) if a["kind"] == "assign" and show(a["value"]).startswith("Option::Some")]
         key = "init_object_writer stores the session before open()"
-        if stores and all(fl.dominates(a["bb"], s.bb) for a in stores):
+        # `self.object_writer = Some(session)` or `self.object_writer.insert(session)`
+        ins_bbs = [c_.bb for c_, ai_, mut_ in calls_on_field(prog, OR, "object_writer", funcs=[f]) if method_name(c_) == "insert"]
+        if (stores or ins_bbs) and all(fl.dominates(a["bb"], s.bb) for a in stores) and all(fl.dominates(b_, s.bb) and b_ != s.bb for b_ in ins_bbs):
             r5.ok(key, "", s.loc)
         else:
             r5.violation(key, "open() runs before the session is stored: a failing open cannot be reported to the writer", s.loc)
